@@ -180,6 +180,10 @@ pub enum Action {
     FailAfter(i32),
     /// write/copy: transfer only half of the bytes.
     Short,
+    /// close of a file written through this descriptor: the deferred write-back fails, i.e. the second half of
+    /// the data never reaches the file (it is cut to half its size), the descriptor is released and close reports
+    /// this errno (what NFS, quotas and full disks do to a writer that did not fsync)
+    LoseTail(i32),
     /// The process dies here, instead of executing the call.
     Die,
 }
@@ -285,7 +289,11 @@ pub fn trace_since(n: usize) -> Vec<Ev> {
 pub fn set_tracing(on: bool) {
     TRACING.store(on, SeqCst);
 }
+/// inodes written by a participant and not flushed since (what a failing close may lose)
+static DIRTY: Mutex<Option<std::collections::HashSet<u64>>> = Mutex::new(None);
+
 pub fn reset_case() {
+    *DIRTY.lock().unwrap() = None;
     TRACE.lock().unwrap().clear();
     SEQ.store(0, SeqCst);
     *FDS.lock().unwrap() = Some(HashMap::new());
@@ -537,12 +545,39 @@ unsafe fn mediate(mut ev: Ev, real: &mut dyn FnMut(&mut Ev, bool) -> i64) -> i64
             set_errno(e);
             -1
         }
+        Action::LoseTail(e) => {
+            // only what was written and not flushed since can be lost
+            let dirty = DIRTY.lock().unwrap().as_ref().map(|d| d.contains(&ev.ino)).unwrap_or(false);
+            if ev.kind == Kind::Close && ev.fd >= 0 && dirty {
+                let mut st: libc::stat = std::mem::zeroed();
+                if libc::syscall(libc::SYS_fstat, ev.fd, &mut st) == 0 && (st.st_mode & libc::S_IFMT) == libc::S_IFREG && st.st_size > 1 {
+                    libc::syscall(libc::SYS_ftruncate, ev.fd, st.st_size / 2);
+                }
+            }
+            ev.effect_done = real(&mut ev, false) >= 0;
+            ev.injected = true;
+            set_errno(e);
+            -1
+        }
         Action::Die => {
             libc::_exit(137);
         }
     };
     ev.ret = ret;
     ev.errno = if ret < 0 { get_errno() } else { 0 };
+    if ret >= 0 && ev.ino != 0 {
+        match ev.kind {
+            Kind::Write | Kind::CopyRange | Kind::Truncate => {
+                DIRTY.lock().unwrap().get_or_insert_with(Default::default).insert(ev.ino);
+            }
+            Kind::Fsync => {
+                if let Some(d) = DIRTY.lock().unwrap().as_mut() {
+                    d.remove(&ev.ino);
+                }
+            }
+            _ => {}
+        }
+    }
     ev.seq = SEQ.fetch_add(1, SeqCst);
     let saved = get_errno();
     if TRACING.load(SeqCst) {
